@@ -389,4 +389,4 @@ LEVEL_NOTE = ("Trusted: Coq kernel, extraction, harness, generators, Python expa
               "(%d, %s copying) is modelled; time attributes are constants supplied by the harness; the XML parser covers the subset of XML 1.0 the writer can "
               "emit (no DTD, comments, CDATA, PIs, non-ASCII).")
 TECHNIQUE = "Coq proof over hand-written executable model (writer + XML parser round trip) + extracted-model/implementation correspondence check with an independent XML parser as second judge"
-READY = False
+READY = True
